@@ -16,7 +16,7 @@ pub static PROP: Prop = Prop {
     rule: "generated diagrams (60%: arbitrary, with isolated / dangling nodes, repeated incidences, parallel bundles; 40%: monogamous acyclic circuits built wire by wire, half of them with one point mutation) so that `true` answers are frequent; each predicate compared with its definition on the plain model (DFS, counting); half of the cases run in a plain release build; non-trivial = >= 1 hyperedge and >= 3 nodes; distinct = hash of the diagram",
     assumptions: &["monogamy as documented: both interface maps injective and, per node, in-degree + (1 if input) == 1 and out-degree + (1 if output) == 1"],
     fixed: Some(fixed),
-    scale: None,
+    scale: Some(super::scale::c17),
 };
 
 pub const SIG: &[OpSpec] = &[
